@@ -242,6 +242,10 @@ func (p *PostingsList) read(postingsOffset uint64, d *Dictionary) error {
 		return p.init1Hit(postingsOffset)
 	}
 
+	// general encoding, forget any 1-hit state left by a previous use
+	p.docNum1Hit = 0
+	p.normBits1Hit = 0
+
 	// read the location of the freq/norm details
 	var n uint64
 	var read int
